@@ -810,7 +810,7 @@ def plan(tier, seed):
         kinds = {"rand-em": 1500, "rand-tc": 500, "rand-tr": 500}
         per = 250
     else:
-        kinds = {"rand-em": 120000, "rand-tc": 30000, "rand-tr": 30000}
+        kinds = {"rand-em": 60000, "rand-tc": 20000, "rand-tr": 20000}
         per = 4000
     _out = out + common.shards(kinds, per_shard=per, tier=tier, seed=seed)
     if tier == "thorough":
